@@ -14,6 +14,7 @@ from __future__ import annotations
 
 import dataclasses
 import typing
+from decimal import Decimal
 from typing import Annotated, Any, Dict, List, Literal, NewType, Optional, Sequence, Tuple, Union
 
 from vkit import env, runner
@@ -63,6 +64,30 @@ class EnumA(_enum.Enum):
 class EnumB(_enum.Enum):
     BIG = 1
     SMALL = 2
+
+
+@dataclasses.dataclass
+class PropA:
+    side: int
+
+    @property
+    def area(self) -> int:
+        return self.side * self.side
+
+
+@dataclasses.dataclass
+class PropB:
+    radius: int
+
+    @property
+    def area(self) -> "Decimal":
+        return Decimal(self.radius) / 2
+
+
+# this module uses ``from __future__ import annotations``: give the properties real return annotations (with_property infers the
+# field type from them)
+PropA.area.fget.__annotations__["return"] = int
+PropB.area.fget.__annotations__["return"] = Decimal
 
 
 @dataclasses.dataclass
@@ -188,6 +213,7 @@ POOL: Dict[str, Any] = {
     "RNode": RNode, "Wrap": Wrap, "HasUnloadable": HasUnloadable, "Unloadable": Unloadable, "ListUnloadable": List[Unloadable],
     "DictStrInt": Dict[str, int], "dict": dict, "DictStrBool": Dict[str, bool],
     "EnumA": EnumA, "EnumB": EnumB, "EnumModel": EnumModel, "ListEnumB": List[EnumB],
+    "PropA": PropA, "PropB": PropB,
 }
 CONFUSABLE_GROUPS = [
     {"Lit01", "LitFT", "Lit0", "LitF", "Lit1T", "OptLit0", "OptLitF"}, {"ListLit01", "ListLitFT"}, {"TupLit1T", "TupLitT1"},
@@ -196,6 +222,7 @@ CONFUSABLE_GROUPS = [
     {"A1", "A2", "A1Twin", "NT1"}, {"ListA1", "ListA2"}, {"Id1", "Id2"}, {"ListId1", "ListId2"}, {"AnnIntA", "AnnIntB", "int"},
     {"Node", "ListNode"}, {"MA", "MB"}, {"RNode", "Wrap", "HasUnloadable", "Unloadable", "ListUnloadable"},
     {"DictStrInt", "dict", "DictStrBool"}, {"EnumA", "EnumB", "EnumModel", "ListEnumB"},
+    {"PropA", "PropB"},
 ]
 GROUP_OF = {name: i for i, g in enumerate(CONFUSABLE_GROUPS) for name in g}
 
@@ -212,7 +239,7 @@ DUMP_VALUES = {
     "U_int_str": lambda: "s", "OptInt": lambda: None, "Id1": lambda: 5, "DictStrInt": lambda: {"a": 1}, "OptA1": lambda: A1(3),
     "A1Twin": lambda: A1Twin("s"), "Wrap": lambda: Wrap(RNode(1, (None, Unloadable()))),
     "EnumA": lambda: EnumA.RED, "EnumB": lambda: EnumB.BIG, "EnumModel": lambda: EnumModel(EnumA.BLUE, EnumB.SMALL),
-    "ListEnumB": lambda: [EnumB.SMALL],
+    "ListEnumB": lambda: [EnumB.SMALL], "PropA": lambda: PropA(3), "PropB": lambda: PropB(3),
 }
 
 
@@ -237,6 +264,8 @@ RECIPES = {
     # a provider bound by several predicates at once (its checker is consulted by every request of the retort)
     "enum_names_multi": lambda: [adaptix.enum_by_name(EnumA, EnumB)],
     "enum_names_field_and_type": lambda: [adaptix.enum_by_name(P[EnumModel].p, EnumB, "nope")],
+    # one provider serving two classes whose same-named properties have different return annotations (int / Decimal)
+    "with_property_two_classes": lambda: [adaptix.with_property(P[PropA, PropB], "area")],
 }
 CONV_PAIRS = {"A1->A2": (A1, A2), "A1->Dst1": (A1, Dst1), "A2->Dst1": (A2, Dst1), "A1->DstOpt": (A1, DstOpt),
               "A1->DstBad": (A1, DstBad), "A1Twin->Dst1": (A1Twin, Dst1), "NT1->A1": (NT1, A1), "A2->A1": (A2, A1),
@@ -390,7 +419,13 @@ def apply_step(world: World, step):  # noqa: C901, PLR0912
         base_name = step.get("r", "warm") if step.get("r", "warm") in world.retorts else "warm"
         base, args = world.retorts[base_name]
         new_args = {**args, **step["opts"]}
-        world.retorts[name] = (base.replace(strict_coercion=new_args["strict"], debug_trail=DEBUG[new_args["debug"]]), new_args)
+        # only the options named in the step are passed: replace(strict_coercion=...) alone, replace(debug_trail=...) alone, or both
+        kwargs = {}
+        if "strict" in step["opts"]:
+            kwargs["strict_coercion"] = new_args["strict"]
+        if "debug" in step["opts"]:
+            kwargs["debug_trail"] = DEBUG[new_args["debug"]]
+        world.retorts[name] = (base.replace(**kwargs), new_args)
         probes += [("type", name, step["t"]), ("type", base_name, step["t"])]
     elif op == "extend":
         name = f"r{len(world.retorts)}"
@@ -543,11 +578,17 @@ class HistoryMachine(RuleBasedStateMachine):
         self.ensure(data)
         self.do({"op": "module_load", "t": t, "d": d})
 
-    @rule(data=st.data(), t=st_type_pair(), strict=st.booleans(), debug=st.integers(0, 2))
-    def replace(self, data, t, strict, debug):
+    @rule(data=st.data(), t=st_type_pair(), strict=st.booleans(), debug=st.integers(0, 2),
+          which=st.sampled_from(["both", "strict", "strict", "debug"]))
+    def replace(self, data, t, strict, debug, which):
         self.ensure(data)
         if len(self.world.retorts) < 5:
-            self.do({"op": "replace", "t": t, "opts": {"strict": strict, "debug": debug},
+            opts = {"strict": strict, "debug": debug}
+            if which == "strict":
+                del opts["debug"]
+            elif which == "debug":
+                del opts["strict"]
+            self.do({"op": "replace", "t": t, "opts": opts,
                      "r": data.draw(st.sampled_from(sorted(self.world.retorts)))})
 
     @rule(data=st.data(), t=st_type_pair(), recipe=st.sampled_from(sorted(RECIPES)))
@@ -595,6 +636,18 @@ SCENARIOS = [
     {"init": {"recipe": "none", "strict": True, "debug": 2},
      "history": [{"op": "load", "t": "HasUnloadable", "d": 30, "r": "warm"}, {"op": "load", "t": "A1", "d": 20, "r": "warm"},
                  {"op": "churn", "t": "ListInt", "n": 200, "base": 0}, {"op": "load", "t": "listint", "d": 8, "r": "warm"}]},
+    # every recipe once with each of its confusable hints requested in both orders (provider objects that remember something
+    # about the first class / predicate they served)
+    *[{"init": {"recipe": rec, "strict": True, "debug": dbg},
+       "history": [{"op": "dump", "t": a, "d": 0, "r": "warm", "also": b}, {"op": "load", "t": b, "d": 0, "r": "warm", "also": a}]}
+      for rec, pairs in (("with_property_two_classes", [("PropA", "PropB"), ("PropB", "PropA")]),
+                         ("enum_names_multi", [("EnumA", "EnumB"), ("EnumB", "EnumA"), ("EnumModel", "EnumA")]),
+                         ("enum_names_field_and_type", [("EnumModel", "EnumB"), ("EnumB", "EnumModel")]))
+      for a, b in pairs for dbg in (0, 2)],
+    # replace() with a single option after the parent has served the type
+    *[{"init": {"recipe": "none", "strict": False, "debug": 2},
+       "history": [{"op": "load", "t": t, "d": 1, "r": "warm"}, {"op": "replace", "t": t, "opts": opts, "r": "warm"}]}
+      for t in ("int", "ListStr", "Lit01", "A1") for opts in ({"strict": True}, {"debug": 0})],
 ]
 
 
